@@ -541,7 +541,9 @@ def run(prog, rep, tier='quick', config='default'):
         cname = m.group(1) if m else '?'
         generic = cname not in S
         owner = prog.owner_of(fn)
-        if owner.name not in reach and fn.name not in reach:
+        no_callers = (config != 'default' and not owner.name.startswith('<') and
+                      not [x for x in prog.callers.get(owner.name, []) if not mir.is_testsupport(x.fn.name)])
+        if (owner.name not in reach and fn.name not in reach) or no_callers:
             rep.info('R5a', base + '|unreached', where=c.where(), fn=fn.name, detail='function is not reachable from any front end: not judged')
             continue
         insts = [None]
